@@ -565,13 +565,28 @@ def r07_7(chk, sht):
     chk.ob("R07.7", SHT, "SHT", "all fft/ifft calls use one and the same norm", len(norms) == 1, expected="one norm",
            found=sorted(norms))
     ev = sht.ev("SHT.__init__")
+    # final value of self.weights: the stored Gauss-Legendre weights times every in-place factor, compared with 4 pi w / (total weight),
+    # the total being the third result of the same roots_legendre(..., mu=True) call (directly or through self.total_weight)
     wt = None
+    total = None
     for e in ev.events:
-        if e.kind == "aug" and e.target.key() == "self.weights" and e.op == "Mult":
+        if e.kind == "store" and e.target.key() == "self.weights":
             wt = e.value
+        if e.kind == "store" and e.target.key() == "self.total_weight":
+            total = e.value
+        if e.kind == "aug" and e.target.key() == "self.weights" and wt is not None:
+            wt = wt * e.value if e.op == "Mult" else (wt / e.value if e.op == "Div" else None)
     tw = P.atom(("attr", P.name("self"), "total_weight"))
-    chk.ob("R07.7", SHT, "SHT.__init__", "weights are rescaled by 4 pi / total weight", wt is not None and wt == 4 * PI / tw,
-           expected=str(4 * PI / tw), found=str(wt))
+    okw = False
+    rl = None
+    if wt is not None and total is not None:
+        ta = total.as_atom()
+        if ta and ta[0] == "sub" and call_name(ta[1].as_atom() or ()) == "scipy.special.roots_legendre" and ta[2] == (P.const(2),):
+            rl = ta[1]
+            w0 = P.atom(("sub", rl, (P.const(1),)))
+            okw = wt == 4 * PI * w0 / tw or wt == 4 * PI * w0 / total
+    chk.ob("R07.7", SHT, "SHT.__init__", "weights are rescaled by 4 pi / total weight", okw,
+           expected=f"4*pi*{rl}[1] / {rl}[2]", found=str(wt))
     phi = None
     ntheta = None
     for e in ev.events:
@@ -656,6 +671,11 @@ def r07_7(chk, sht):
         if ta and ta[0] == "call" and call_name(ta) == "int" and len(ta[2]) == 1:
             return lb(ta[2][0], depth + 1)
         return None
+    # self.lmax = <parameter>: the parameter and the attribute are the same number
+    for e in ev.events:
+        if e.kind == "store" and e.target.key() == "self.lmax" and not e.guards and e.value.as_atom() and e.value.as_atom()[0] == "name" \
+                and ntheta is not None:
+            ntheta = ntheta.subs({e.value.as_atom(): LM})
     bound = lb(ntheta)
     ok = bound is not None and bound >= 0
     chk.ob("R07.7", SHT, "SHT.__init__", "the default ntheta is lmax + 1 rounded up (never down), so ntheta >= L + 1", ok,
@@ -747,8 +767,13 @@ def r07_8(chk, sht):
     r07_8_sampling(chk, sht)
     """A second transform must not overwrite the result of the first (linearity, round trips and Parseval all compare two results)."""
     from ..effects import alias_path
+    from ..inline import KNOWN
+    known = set(KNOWN.get(sht.rel, ()))
     for fn in sht.methods("SHT"):
         if fn.name.startswith("__") or sht.is_property(fn):
+            continue
+        if fn.name.startswith("_") and known and f"SHT.{fn.name}" not in known:
+            # a private helper a refactoring introduced: it is expanded into the public methods that call it, whose results are checked here
             continue
         ev = sht.ev(f"SHT.{fn.name}")
         vals = [r for r in ev.returns if r.value is not None]
